@@ -349,6 +349,22 @@ func (p *Program) Features() []string {
 	for _, k := range p.Packets {
 		walk(k, false)
 	}
+	// two packets whose match fields use a key field of the same name (names are packet-scoped)
+	keyOwners := map[string]int{}
+	for _, k := range p.Packets {
+		seen := map[string]bool{}
+		for _, f := range k.Fields {
+			if f.Kind == KMatch && !seen[f.Key] {
+				seen[f.Key] = true
+				keyOwners[f.Key]++
+			}
+		}
+	}
+	for _, n := range keyOwners {
+		if n >= 2 {
+			set["match:shared-key-name"] = true
+		}
+	}
 	// identifier shapes: names that are not fixpoints of the generators' case conversions
 	canonical := func(n string) bool {
 		return strcase.ToCamel(n) == n && strcase.ToCamel(strcase.ToSnake(n)) == n && strcase.ToCamel(strcase.ToLowerCamel(n)) == n
